@@ -49,7 +49,13 @@ from . import qltypes
 
 _BYTES_ESCAPE_RE = re.compile(b'[\\\\\'\x00-\x1f\x7e-\xff]')
 _NON_PRINTABLE_RE = re.compile(
-    r'[\u0000-\u0008\u000B\u000C\u000E-\u001F\u007F\u0080-\u009F\n]')
+    r'[\u0000-\u0008\u000B\u000C\u000E-\u001F\u007F\u0080-\u009F\n'
+    # bidirectional control characters are rejected by the lexer unless
+    # written in escaped form
+    r'\u202A-\u202E\u2066-\u2069]')
+# repr() writes non-printable Latin-1 characters as \xNN, but EdgeQL only
+# accepts \x escapes up to \x7f; those need the \uNNNN form.
+_REPR_ESCAPE_RE = re.compile(r'\\(?:x([89a-f][0-9a-f])|.)', re.DOTALL)
 _ESCAPES = {
     b'\\': b'\\\\',
     b'\'': b'\\\'',
@@ -713,7 +719,12 @@ class EdgeQLSourceGenerator(codegen.SourceGenerator):
                 # different tag if the value cannot be enclosed in it.
                 self.write(edgeql_quote.dollar_quote_literal(node.value))
                 return
-            self.write(repr(node.value))
+            self.write(_REPR_ESCAPE_RE.sub(
+                lambda m: (
+                    f'\\u00{m.group(1)}' if m.group(1) else m.group(0)
+                ),
+                repr(node.value),
+            ))
         else:
             self.write(node.value)
 
